@@ -209,6 +209,11 @@ def make_kernel(fn):
     params, head, refargs = KERNELS[fn]
     @obligation('C10.ref.%s' % fn, fns=[(B2, fn)], replay=make_replay(fn))
     def ob(ctx):
+        if not ctx.w.find(fn, B2):
+            # the kernels are internal helpers (anonymous namespace): one that this tree does not have was inlined or renamed; the assembly contracts
+            # (C10.ref.amu2L_B_Yuk / nonYuk) then compare the whole expression with the fully expanded reference
+            ctx.record('', PROVED, 'B', 0, 'internal helper %s is not present in %s on this tree: covered by the assembly contracts with the reference expanded' % (fn, B2), kind='note')
+            return
         vs = {p: z3.Real(p) for p in params}
         pre = [v > 0 for v in vs.values()] + ([vs['cw2'] < 1] if 'cw2' in vs else [])
         stubs = {'shift': noshift, 'shift_kaellen': noshift, 'dilog': uf_stub('dilog'), 'f_PS': uf_stub('f_PS'), 'Phi': uf_stub('Phi')}
@@ -360,11 +365,10 @@ def _kernel_uf(it, name, extra):
     """reference-side counterpart of uf_stub(name): the kernel applied to the reference arguments plus the extra C++ arguments (al, cw2)"""
     return lambda *a: it.uf('fn_' + name, *[z3.simplify(z3real(x)) for x in list(a) + list(extra)])
 
-@obligation('C10.ref.amu2L_B_Yuk', fns=[(B2, 'amu2L_B_Yuk')], replay=lambda m, wd: make_assembly_replay('Yuk')(m, wd))
-def _(ctx):
-    """ensures for ALL parameters: amu2L_B_Yuk(pars) == amu2LBYuk of math/THDMTwoLoopB.m (Eq. (52), (91)-(98) of arXiv:1607.06292) with x_S = m_S^2/MZ^2, CW2 = MW^2/MZ^2,
-    aeps = cos(beta-alpha), Lambda567 := Lambda5 + Lambda67/(tan(beta) - 1/tan(beta)); the kernels Fm0, Fmp, YF2, YF3 are callees by contract (C10.ref.<kernel>), b is executed"""
-    stubs = {n: uf_stub(n) for n in ('Fm0', 'Fmp', 'YF1', 'YF2', 'YF3', 'T9', 'T10')}
+def _yuk_pairs(ctx, stubbed):
+    """(code result, reference) per path of amu2L_B_Yuk with the kernels in `stubbed` uninterpreted on both sides and every other kernel executed / expanded"""
+    stubs = {n: uf_stub(n) for n in stubbed}
+    stubs.update({'shift': noshift, 'shift_kaellen': noshift, 'dilog': uf_stub('dilog'), 'f_PS': uf_stub('f_PS'), 'Phi': uf_stub('Phi')})
     it = Interp(ctx.w, mode='sym', stubs=stubs, div_sides=False)
     p, pre = _params(ctx, it)
     it.assumptions = pre
@@ -378,31 +382,29 @@ def _(ctx):
     syms = {'CW2': cw2, 'Pi': z3.Real('c_PI'), 'AL': al, 'MM': f['mm'], 'MZ': f['mz'], 'TB': f['tb'], 'ZetaL': f['zetal'], 'Lambda5': f['lambda5'],
             'Lambda567': f['lambda5'] + f['lambda67'] / sc, 'aeps': f['cos_beta_minus_alpha'],
             'xhSM': z3.simplify(f['mhSM'] * f['mhSM'] / mz2), 'xH': z3.simplify(f['mh'].get(1) * f['mh'].get(1) / mz2), 'xHp': z3.simplify(f['mHp'] * f['mHp'] / mz2)}
-    defs = mma.load(os.path.join(ctx.w.repo, MFILE))
-    fns = {'Fm0': _kernel_uf(it, 'Fm0', (al, cw2)), 'Fmp': _kernel_uf(it, 'Fmp', (al, cw2)), 'YF2': _kernel_uf(it, 'YF2', (cw2,)), 'YF3': _kernel_uf(it, 'YF3', (cw2,))}
+    defs, ev0, _r0 = ref_evaluator(ctx, it, syms)
+    fns = dict(ev0.fn)
+    extra = {'Fm0': (al, cw2), 'Fmp': (al, cw2), 'YF1': (cw2,), 'YF2': (cw2,), 'YF3': (cw2,), 'T9': (cw2,), 'T10': (cw2,)}
+    for n in stubbed:
+        fns[n] = _kernel_uf(it, n, extra[n])
     ev = mma.Evaluator(defs, syms, fns, const=lambda q: z3.RealVal(str(q)))
     rules = ev.rules_of(('sym', 'expandAmu'))
     for k in ('CW2', 'xA', 'xHp', 'xhSM', 'xH'):
         rules.pop(k, None)
-    try:
-        ref = ev.ev(('sym', 'amu2LBYuk'), rules)
-    except mma.MmaError as e:
-        ctx.record('', ERROR, 'B', 0, 'reference formula amu2LBYuk: %s' % e)
-        return
-    n = 0
-    for k, (s_, r, e) in enumerate(ps):
+    ref = ev.ev(('sym', 'amu2LBYuk'), rules)
+    lnf = it.uf_cache.get(('ln', 1))
+    if lnf is not None:
+        ref = _expand_logs(ref, lnf)
+    pairs = []
+    for s_, r, e in ps:
         if e is not None or r is None:
-            ctx.record('path%d' % k, FAILED, 'B', 0, 'no value: %s' % (e,))
-            continue
-        n += 1
-        ctx.prove_ring('path%d' % k, [(z3real(r), ref)])
-    ctx.record('paths', PROVED if n else ERROR, 'B', 0, '%d path(s) compared with amu2LBYuk of %s' % (n, MFILE))
+            raise RuntimeError('a path of amu2L_B_Yuk returns no value: %s' % (e,))
+        pairs.append((_expand_logs(z3real(r), lnf) if lnf is not None else z3real(r), ref))
+    return pairs
 
-@obligation('C10.ref.amu2L_B_nonYuk', fns=[(B2, 'amu2L_B_nonYuk'), (B2, 'TX'), (B2, 'T4'), (B2, 'dxlog')], replay=lambda m, wd: make_assembly_replay('nonYuk')(m, wd))
-def _(ctx):
-    """ensures for ALL parameters (on the path where no near-equality series of dxlog is taken): amu2L_B_nonYuk(pars) == amu2LBNonYuk of math/THDMTwoLoopB.m (Eq. (71)); the code's
-    TX, T4 and dxlog are executed and must reproduce the reference combination of T2+, T2-, T4 (Eqs. (74), (75)); T0, T1, T5-T8 are callees by contract"""
-    stubs = {n: uf_stub(n) for n in ('T0', 'T1', 'T5', 'T6', 'T7', 'T8')}
+def _nonyuk_pairs(ctx, stubbed):
+    stubs = {n: uf_stub(n) for n in stubbed}
+    stubs.update({'shift': noshift, 'shift_kaellen': noshift, 'dilog': uf_stub('dilog'), 'f_PS': uf_stub('f_PS'), 'Phi': uf_stub('Phi')})
     stubs['is_equal_rel'] = lambda it_, a, t: False      # the generic path: no pair of mass ratios is within the near-equality window of dxlog (its series: C10.callee.dxlog_series)
     it = Interp(ctx.w, mode='sym', stubs=stubs, div_sides=False, feasibility=False)
     p, pre = _params(ctx, it)
@@ -414,29 +416,68 @@ def _(ctx):
     cw2 = z3.simplify(f['mw'] * f['mw'] / mz2)
     syms = {'CW2': cw2, 'Pi': z3.Real('c_PI'), 'AL': f['alpha_em'], 'MM': f['mm'], 'MZ': f['mz'],
             'xA': z3.simplify(f['mA'] * f['mA'] / mz2), 'xH': z3.simplify(f['mh'].get(1) * f['mh'].get(1) / mz2), 'xHp': z3.simplify(f['mHp'] * f['mHp'] / mz2)}
-    defs = mma.load(os.path.join(ctx.w.repo, MFILE))
-    ln = lambda x: it.uf('ln', z3.simplify(x))
-    fns = {n: _kernel_uf(it, n, (cw2,)) for n in ('T0', 'T1', 'T5', 'T6', 'T7', 'T8')}
-    fns['Log'] = ln
+    defs, ev0, _r0 = ref_evaluator(ctx, it, syms)
+    fns = dict(ev0.fn)
+    for n in stubbed:
+        fns[n] = _kernel_uf(it, n, (cw2,))
     ev = mma.Evaluator(defs, syms, fns, const=lambda q: z3.RealVal(str(q)))
     rules = ev.rules_of(('sym', 'expandAmu'))
     for k in ('CW2', 'xA', 'xHp', 'xhSM', 'xH'):
         rules.pop(k, None)
-    try:
-        ref = ev.ev(('sym', 'amu2LBNonYuk'), rules)
-    except mma.MmaError as e:
-        ctx.record('', ERROR, 'B', 0, 'reference formula amu2LBNonYuk: %s' % e)
-        return
+    ref = ev.ev(('sym', 'amu2LBNonYuk'), rules)
     lnf = it.uf_cache.get(('ln', 1))
     ref = _expand_logs(ref, lnf) if lnf is not None else ref
-    # the generic path: the one whose result contains no series of dxlog, i.e. the path on which every near-equality test is false
     generic = [(s_, r) for s_, r, e in ps if e is None and r is not None]
     if len(generic) != 1:
-        ctx.record('paths', ERROR, 'B', 0, '%d generic paths among %d' % (len(generic), len(ps)))
-        return
+        raise RuntimeError('%d generic paths among %d' % (len(generic), len(ps)))
     code = _expand_logs(z3real(generic[0][1]), lnf) if lnf is not None else z3real(generic[0][1])
-    ctx.prove_ring('generic', [(code, ref)])
-    ctx.record('paths', PROVED, 'B', 0, '%d paths, generic path compared with amu2LBNonYuk of %s' % (len(ps), MFILE))
+    return [(code, ref)]
+
+def _assembly_obligation(ctx, name, pairs_fn, kernels, always_stubbed=()):
+    """first with every kernel that exists as a function taken as a callee by contract; if that identity fails, once more with the kernels executed on the code side and expanded
+    from their definitions on the reference side (a kernel inlined into its caller, wholly or at one call site, is not a change of what is computed)"""
+    from gm2v import ring
+    present = [n for n in kernels if ctx.w.find(n, B2)]
+    try:
+        pairs = pairs_fn(ctx, present)
+    except (mma.MmaError, RuntimeError) as e:
+        ctx.record('', ERROR, 'B', 0, 'reference formula / paths: %s' % e)
+        return
+    def all_identical(ps_):
+        try:
+            return all(ring.identity(a, b) for a, b in ps_)
+        except ring.NotRing:
+            return False
+    if all_identical(pairs):
+        for k in range(len(pairs)):
+            ctx.record('path%d' % k if name == 'Yuk' else 'generic', PROVED, 'B', 0, 'identical to the reference formula (kernels as callees: %s)' % ', '.join(present), solver='ring normalisation (sympy)')
+        ctx.record('paths', PROVED, 'B', 0, '%d path(s) compared with %s' % (len(pairs), MFILE))
+        return
+    try:
+        pairs2 = pairs_fn(ctx, [n for n in always_stubbed if n in present])
+        if all_identical(pairs2):
+            for k in range(len(pairs2)):
+                ctx.record('path%d' % k if name == 'Yuk' else 'generic', PROVED, 'B', 0, 'identical to the reference formula with the kernels executed and the reference expanded (a kernel is inlined on this tree)',
+                           solver='ring normalisation (sympy)')
+            ctx.record('paths', PROVED, 'B', 0, '%d path(s) compared with %s (monolithic)' % (len(pairs2), MFILE))
+            return
+    except Exception:
+        pass
+    for k, pr in enumerate(pairs):
+        ctx.prove_ring('path%d' % k if name == 'Yuk' else 'generic', [pr])
+    ctx.record('paths', PROVED, 'B', 0, '%d path(s) compared with %s' % (len(pairs), MFILE))
+
+@obligation('C10.ref.amu2L_B_Yuk', fns=[(B2, 'amu2L_B_Yuk')], replay=lambda m, wd: make_assembly_replay('Yuk')(m, wd))
+def _(ctx):
+    """ensures for ALL parameters: amu2L_B_Yuk(pars) == amu2LBYuk of math/THDMTwoLoopB.m (Eq. (52), (91)-(98) of arXiv:1607.06292) with x_S = m_S^2/MZ^2, CW2 = MW^2/MZ^2,
+    aeps = cos(beta-alpha), Lambda567 := Lambda5 + Lambda67/(tan(beta) - 1/tan(beta)); the kernels Fm0, Fmp, YF2, YF3 are callees by contract (C10.ref.<kernel>), b is executed"""
+    _assembly_obligation(ctx, 'Yuk', _yuk_pairs, ('Fm0', 'Fmp', 'YF1', 'YF2', 'YF3', 'T9', 'T10'))
+
+@obligation('C10.ref.amu2L_B_nonYuk', fns=[(B2, 'amu2L_B_nonYuk'), (B2, 'TX'), (B2, 'T4'), (B2, 'dxlog')], replay=lambda m, wd: make_assembly_replay('nonYuk')(m, wd))
+def _(ctx):
+    """ensures for ALL parameters (on the path where no near-equality series of dxlog is taken): amu2L_B_nonYuk(pars) == amu2LBNonYuk of math/THDMTwoLoopB.m (Eq. (71)); the code's
+    TX, T4 and dxlog are executed and must reproduce the reference combination of T2+, T2-, T4 (Eqs. (74), (75)); T0, T1, T5-T8 are callees by contract"""
+    _assembly_obligation(ctx, 'nonYuk', _nonyuk_pairs, ('T0', 'T1', 'T5', 'T6', 'T7', 'T8'), always_stubbed=('T7', 'T8'))
 
 def _is_near_test_true(c):
     """a path-condition literal that is a (non-negated) comparison '|a - b| < eps * ...' -- the near-equality branch of dxlog taken"""
